@@ -142,6 +142,42 @@ def run_case(case):
                  conditional=fml.cond_text(B, A), rank_AB=rm.formula_rank(rw, a & b),
                  rank_AnotB=rm.formula_rank(rw, a & ~b & fml.full(n)))
 
+    # ---- the same object after its ranks were edited in place: the laws hold for the NEW ranking
+    if kind == 'custom' and rng.random() < 0.4:
+        asked = []
+        for _ in range(4):
+            f = fml.rand_formula(rng, sig, rng.randint(0, 2), 0.04)
+            try:
+                o.formula_rank(fml.to_pysmt(f))
+            except Exception:
+                pass
+            asked.append(f)
+        ws = list(ranks)
+        for w in rng.sample(ws, max(1, len(ws) // 3)):
+            newr = rng.randint(0, 6)
+            o.ranks[w] = newr
+            ranks[w] = newr
+        rw = {w: ranks[fml.world_str(w, sig)] for w in range(1 << n)}
+        bump('rankings_edited_in_place')
+        for f in asked:
+            exp = rm.formula_rank(rw, fml.tt(f, sig))
+            try:
+                got = o.formula_rank(fml.to_pysmt(f))
+            except Exception as e:
+                viol('formula_rank-raised-after-in-place-edit:%s' % type(e).__name__, formula=fml.to_text(f))
+                continue
+            res['evals'] += 1
+            if got != exp:
+                viol('formula_rank:stale-after-in-place-rank-edit', formula=fml.to_text(f), got=got, expected=exp)
+        B, A = fml.rand_formula(rng, sig, 1, 0.0), fml.rand_formula(rng, sig, 1, 0.0)
+        a, b = fml.tt(A, sig), fml.tt(B, sig)
+        try:
+            if o.conditional_acceptance(impl.mk_cond(B, A)) != rm.accepts(rw, a & b, a & ~b & fml.full(n)):
+                viol('acceptance:wrong-after-in-place-rank-edit', conditional=fml.cond_text(B, A))
+        except Exception as e:
+            viol('conditional_acceptance-raised-after-in-place-edit:%s' % type(e).__name__)
+        distinct = len(set(rw.values()))
+
     # ---- marginalisation
     if n >= 2:
         for _ in range(3):
